@@ -1,5 +1,10 @@
 package main
 
+import (
+	"sort"
+	"strconv"
+)
+
 func P(kv ...interface{}) map[string]int {
 	m := map[string]int{}
 	for i := 0; i+1 < len(kv); i += 2 {
@@ -45,11 +50,11 @@ func init() {
 		return r
 	}
 	checks["C08"] = &propCheck{
-		ID: "C08", Quick: finite([]int{2, 3}, 1), Thorough: finite([]int{2, 3, 4, 5}, 2),
+		ID: "C08", Quick: finite([]int{2, 3}, 1), Thorough: append(finite([]int{4}, 1), append(finite([]int{3}, 2), hrun{Harness: "vhC08Put", Params: P("CAP", 6, "AUTO", 1, "TOPICS", 1, "FIRSTS", 12)}, hrun{Harness: "vhC08Put", Params: P("CAP", 6, "AUTO", 0, "TOPICS", 1)})...),
 		Labels: []string{"C08/"},
 		Bounds: map[string]string{
 			"quick":    "capacity N in {2,3}; pre-state: every (count, head) shape of the ring, manual IDs = pairwise distinct symbolic strings <= 2 bytes / automatic IDs first+k with first in {0,7,9,98}; one topic per entry and 1 topic per subscription (symbolic bytes); one Put (ID set/unset, 0-2 topics) or one Replay (ID unset / any string <= 2 bytes / the k-th buffered ID; symbolic failing Send index; Flush failing or not). By induction over the representation invariant: Put/Replay histories of any length for these capacities.",
-			"thorough": "capacity N in {2,3,4,5}; up to 2 topics per entry and per subscription; otherwise as quick",
+			"thorough": "quick plus: capacity 4 (one topic), capacity 3 with up to 2 topics per entry and per subscription, Put alone at capacity 6",
 		},
 		Outside: []string{"capacities above the bound (index arithmetic is uniform in N, but that is an argument, not a verdict)", "automatic IDs >= 1000 except through the chosen boundary values", "duplicate manual IDs", "an evicted automatic ID (the property leaves it open; go-sse replays everything buffered)"},
 		Oracle:  "abstract list of the last N accepted entries: Put appends (dropping the oldest when full) or rejects leaving it unchanged; Replay sends exactly the entries after the presented ID whose topics intersect, in order, then flushes; invariant 0<=head,tail<N, tail=(head+count) mod N, slots outside the window zero",
@@ -201,11 +206,11 @@ func init() {
 		return r
 	}
 	checks["C20"] = &propCheck{
-		ID: "C20", Quick: c20([]int{2, 3, 4}, 5, 1), Thorough: append(c20([]int{2, 3, 4, 5, 6}, 6, 1), c20([]int{7, 8}, 8, 0)...),
+		ID: "C20", Quick: c20([]int{2, 3, 4}, 5, 1), Thorough: append(c20([]int{5}, 6, 1), c20([]int{8}, 8, 0)...),
 		Labels: []string{"C20/", "C01/SmallBuf", "panic:"},
 		Bounds: map[string]string{
 			"quick":    "limit L in {2,3,4} through ReadConfig.MaxEventSize and through Connection.Buffer(buf, L) with an initial buffer of every capacity 0..L+1 (or nil); every stream <=5 bytes (all byte values), every segmentation into read chunks; the real bufio.Scanner buffer growth/compaction logic runs with these small numbers",
-			"thorough": "L in {2..6} with streams <=6 bytes and all segmentations; L in {7,8} with streams <=8 bytes in one chunk",
+			"thorough": "quick plus: L = 5 with streams <=6 bytes and all segmentations; L = 8 with streams <=8 bytes in one chunk",
 		},
 		Outside: []string{"the default 4 KiB start and 64 KiB limit themselves (same scanner code with larger constants - not decided here)", "allocation failure"},
 		Oracle:  "independent tokenisation of the stream (blank lines + event + terminating blank line): a token longer than the effective limit max(L, cap(buf)) must yield bufio.ErrTooLong after exactly the events of the earlier tokens and at most limit bytes read beyond the last completed token; if every token is smaller than the limit, no ErrTooLong and the events equal the WHATWG oracle's; at the boundary either, but never a truncated or altered event; no Go panic on any path",
@@ -487,4 +492,31 @@ func init() {
 		Outside: []string{"net/http client and server, TCP, chunked framing (trusted to deliver a prefix of the handler's bytes followed by an error or a clean end)", "Joe's goroutines: replaced by 'replay then register is atomic, live delivery is exactly once in Put order', which C03/C04 decide", "cuts inside the response headers (the body is cut at every offset from 0)", "'the server process survives' is C06's no-crash clause"},
 		Oracle:  "the callback log from the first received event on equals the published list from that event on: each once, in order, with the published ID, type and LF-joined data",
 	}
+
+	// the thorough tier always contains the quick tier
+	for _, pc := range checks {
+		seen := map[string]bool{}
+		var all []hrun
+		for _, r := range append(append([]hrun{}, pc.Quick...), pc.Thorough...) {
+			k := r.Harness + fmtParams(r.Params) + r.Solver
+			if !seen[k] {
+				seen[k] = true
+				all = append(all, r)
+			}
+		}
+		pc.Thorough = all
+	}
+}
+
+func fmtParams(m map[string]int) string {
+	keys := make([]string, 0, len(m))
+	for k := range m {
+		keys = append(keys, k)
+	}
+	sort.Strings(keys)
+	s := ""
+	for _, k := range keys {
+		s += k + "=" + strconv.Itoa(m[k]) + ","
+	}
+	return s
 }
